@@ -153,6 +153,9 @@ func cmdCheck(args []string) int {
 		fmt.Fprintln(os.Stderr, "contracts:", err)
 		return 2
 	}
+	for _, b := range w.checkImmutables() {
+		violation("immutable/"+b, "a field declared immutable (kept by every havoc in the proofs) is assigned outside its object's construction: "+b, nil, true)
+	}
 	loadSecs := time.Since(t0).Seconds()
 	var roots []*Contract
 	for _, k := range sortedKeys(w.contracts) {
@@ -448,6 +451,11 @@ func writeEvidence(verif, prop, tier string, seed int, w *World, rr *RunResult, 
 					}
 					for _, r := range c.Assumes {
 						add("system invariant assumed (never checked at call sites): " + name + " assumes " + r.Src)
+					}
+					for _, aa := range c.AssertAts {
+						if aa.Assume {
+							add("call-site assumption (invariant of an unmodelled container, never checked): " + name + " assume-at call " + aa.Callee + ": " + aa.Clause.Src)
+						}
 					}
 					for _, st := range c.Stable {
 						add("abstracted callees assumed not to write " + st.Src + " (in " + name + ")")
